@@ -119,3 +119,46 @@ def replay(ctx):
         print("VIOLATION property=%s replay=%s" % (ctx["pid"], path))
         return 1
     return 0
+
+
+def valgrind_slice(ctx):
+    """C03 thorough: replays generated cases through an uninstrumented build under valgrind memcheck, which makes
+    uninitialised reads visible (MemorySanitizer is unusable here: no instrumented libstdc++)."""
+    from concurrent.futures import ThreadPoolExecutor
+    job, tier, seed, rundir, builder, env = ctx["job"], ctx["tier"], ctx["seed"], ctx["rundir"], ctx["builder"], ctx["env"]
+    res = dict(evaluations=0, hashes=[], classes={}, counters={}, samples=[], inconclusive=[], notes=[], failures=[])
+    files = []
+    for prop, n in job["props"]:
+        d = os.path.join(rundir, "vg_cases_" + prop)
+        os.makedirs(d, exist_ok=True)
+        _run([builder.exe("mutread"), "--prop", prop, "--cases", str(n), "--seed", str(seed + 17), "--size", "30", "--out", os.path.join(rundir, "vg_gen_" + prop), "--dump-cases", d], env, rundir, 1800)
+        files += [(prop, os.path.join(d, f)) for f in sorted(os.listdir(d))]
+    plain_env = {k: v for k, v in env.items() if not k.endswith("SAN_OPTIONS")}
+
+    def one(item):
+        prop, path = item
+        cmd = ["valgrind", "-q", "--error-exitcode=97", "--track-origins=no", builder.exe("mutread_plain"), "--prop", prop, "--replay", path, "--out", path + ".vg"]
+        rc, out = _run(cmd, plain_env, rundir, 600)
+        return prop, path, rc, out
+
+    with ThreadPoolExecutor(max_workers=ctx["jobs"]) as ex:
+        results = list(ex.map(one, files))
+    for prop, path, rc, out in results:
+        res["evaluations"] += 1
+        res["hashes"].append(hashlib.sha1(open(path, "rb").read()).hexdigest()[:16])
+        if rc == -999:
+            res["inconclusive"].append("valgrind replay timed out: " + os.path.basename(path))
+        elif rc == 97:
+            m = re.search(r"==\d+== ([A-Z][^\n]*)\n(?:==\d+==\s+(?:at|by) [^\n]*\n)*?==\d+==\s+(?:at|by) 0x[0-9A-F]+: (CDNS::[^\n(]*)", out)
+            what = (m.group(1).strip() if m else "valgrind error")
+            where = (m.group(2).strip() if m else "?")
+            final = os.path.join(ctx["viol_dir"], "%s-valgrind-%s" % (ctx["pid"], os.path.basename(path)))
+            with open(final, "w") as f:
+                f.write(open(path).read().replace("\n", " engine=valgrind\n", 1))
+            res["failures"].append(dict(kind="valgrind", replay=final, msg="valgrind memcheck: %s in %s (%s)" % (what, where, prop), output=out[-3000:],
+                                        sig="valgrind." + re.sub(r"[^A-Za-z]+", "_", what)[:40] + "." + re.sub(r"[^A-Za-z0-9:]+", "_", where)[:60], confirmed=True))
+        elif rc not in (0, 1):
+            res["inconclusive"].append("valgrind replay of %s exited %s" % (os.path.basename(path), rc))
+    res["counters"]["valgrind_replays"] = len(results)
+    res["samples"].append("valgrind memcheck replay of %d generated cases through the uninstrumented build" % len(results))
+    return res
